@@ -346,7 +346,7 @@ IdxProjOK(tbl, d) ==
   \A i \in DOMAIN all : all[i].name \in DOMAIN tbl.idx => all[i].proj = tbl.idx[all[i].name].proj
 
 \* names of the parts of RespOK that fail; r is one SDK's normalised response
-RespFails(db, e, r) ==
+RespFails(db, e, r, sdk) ==
   LET pl == Plan(db, e)
       oc == OcOf(r)
       cl == db[e.c]
@@ -362,7 +362,7 @@ RespFails(db, e, r) ==
                     IF r.attrs.some /\ \E i \in Lookup(pl.next[e.c].tables[e.t], e.key) : SameItem(r.attrs.i, i) THEN {} ELSE {"Data"}
                [] e.op = "DeleteItem" /\ oc = "ok" /\ e.retold ->
                     IF OptItemIs(r.attrs, Lookup(tbl, e.key)) THEN {} ELSE {"Data"}
-               [] e.op \in {"PutItem", "DeleteItem", "UpdateItem"} /\ oc = "ccf" /\ e.rvf ->
+               [] e.op \in {"PutItem", "DeleteItem", "UpdateItem"} /\ oc = "ccf" /\ e.rvf /\ sdk = 2 ->   \* SDK v1.40 has no such request field
                     IF OptItemIs(r.ccfitem, Lookup(tbl, IF e.op = "PutItem" THEN e.item ELSE e.key)) THEN {} ELSE {"CcfItem"}
                [] e.op \in {"Query", "Scan"} /\ oc = "ok" ->
                     IF (IF ~e.limit.some /\ ~e.esk.some THEN ReadAllOK(tbl, e, r) ELSE PageOK(tbl, e, r)) THEN {} ELSE {"Data"}
@@ -402,7 +402,8 @@ ObsFails(db, c, o) ==
           ELSE IF ~ot.exists THEN {"Catalog"}
           ELSE LET tbl == db[c].tables[ot.t] IN
                (IF ot.scan.err = "none" /\ EnumOf(ot.scan.items, tbl.items) THEN {} ELSE {"Base"})
-               \cup (IF \A j \in DOMAIN ot.gets : ot.gets[j].r.err = "none" /\ OptItemIs(ot.gets[j].r.item, Lookup(tbl, ot.gets[j].key))
+               \cup (IF \A j \in DOMAIN ot.gets : ValidKeyArg(tbl, ot.gets[j].key) =>
+                                  (ot.gets[j].r.err = "none" /\ OptItemIs(ot.gets[j].r.item, Lookup(tbl, ot.gets[j].key)))
                      THEN {} ELSE {"Base"})
                \cup (IF DescOK(tbl, ot.desc) THEN {} ELSE {"Desc"})
                \cup (IF IdxDescOK(tbl, ot.desc) THEN {} ELSE {"IdxDesc"})
